@@ -79,7 +79,10 @@ R1  species-axis agreement (T-AGREE): the sequence whose position supplies the
     arguments are resolved with Flow (hoisted, items()-iterated, passed
     through a property such as `species_list` or a store-wide `species`
     property; a Holder by the list it was constructed over) and their owners
-    compared.
+    compared.  Flow reads a literal tuple / list by a constant position as
+    the element (a location record returned by a helper) and drops an
+    alternative that subscripts or reads an attribute of the constant None
+    (a "not found" result: using it raises, no value flows).
 R2  absent <-> skipped agreement.  Writer: walked with the value None and
     `field.required` fixed (tests decided by these facts followed, others
     explored both ways): required -> every way raises; optional -> every way
@@ -162,7 +165,10 @@ R6  the writer writes, and the reader reads, at the record index it is given.
     sliced / filtered sources are violations.  Reader: the value read is kept
     under its field's name (element store or dict comprehension handed to the
     container) and assigned to the trajectory attribute of that name by a
-    loop over that container in which the assignment is unconditional.
+    loop over that container in which the assignment is unconditional; a
+    mapping that receives that container whole (`D.update(K)`, `D |= K`)
+    after the field loop, in every pass of the field-set loop and whatever
+    the item, stands for it (anything else about the merge: undecided).
 R7  lost accumulation: a container initialised empty before a loop and used
     after it is not rebound inside the loop (positive control).
 R8  every value accepted into a field is the container's own copy in the
@@ -271,6 +277,29 @@ def _rebuild(n, mapping):
         if hasattr(n, a):
             setattr(new, a, getattr(n, a))
     return new
+
+
+def _project_literals(e):
+    """e with every `(a, b, c)[i]` / `[a, b, c][i]` (literal sequence, constant index, no star) replaced by the
+    element: what a record returned as a tuple and read back by position denotes"""
+    for _ in range(6):
+        m = {}
+        for x in ast.walk(e):
+            if isinstance(x, ast.Subscript) and isinstance(x.value, (ast.Tuple, ast.List)) \
+                    and isinstance(x.slice, ast.Constant) and type(x.slice.value) is int \
+                    and not any(isinstance(y, ast.Starred) for y in x.value.elts) \
+                    and -len(x.value.elts) <= x.slice.value < len(x.value.elts):
+                m[id(x)] = x.value.elts[x.slice.value]
+        if not m:
+            return e
+        e = _rebuild(e, m)
+    return e
+
+
+def _derefs_none(e) -> bool:
+    """e subscripts or reads an attribute of the constant None: evaluating it raises"""
+    return any(isinstance(x, (ast.Subscript, ast.Attribute)) and isinstance(x.value, ast.Constant)
+               and x.value.value is None for x in ast.walk(e))
 
 
 def untag(s: str) -> str:
@@ -515,8 +544,11 @@ class Flow:
             slots = [(x, ch[:1]) for x, ch in slots]
         out = []
         for combo in itertools.product(*[ch for _, ch in slots]):
-            out.append(_rebuild(e, {id(x): v for (x, _), v in zip(slots, combo)}))
-        return out
+            out.append(_project_literals(_rebuild(e, {id(x): v for (x, _), v in zip(slots, combo)})))
+        # a definition `x = None` whose use is `x[i]` / `x.attr` raises there: no value flows from it (the same
+        # reasoning as for unpacking a constant); kept when nothing else is left, so that the caller says undecided
+        live = [v for v in out if not _derefs_none(v)]
+        return live or out
 
     @staticmethod
     def _comp_binding(x):
@@ -4420,8 +4452,52 @@ def _reader_result_flow(ctx, fi, fl, c, st, key_node, floop, sloop):
                 if not ok else f'the value read is only kept when `{norm(more[0][0])[:60]}` is {more[0][1]}' if more else
                 'the loop can be left between reading a value and keeping it'), line=stx.lineno)
 
+    # a mapping that receives a kept container whole (`D.update(K)`, `D |= K`) after the field loop, once per pass of
+    # the field-set loop, holds the values read under the same names
+    merged = set()
+    fstmt = floop.stmt
+    kept_txt = set().union(*[b_ for b_, comp, ks, node, stx in kept if comp is None]) if kept else set()
+    for _ in range(3):
+        grew = False
+        for sx in [x for x in walk_no_nested(fi.node) if isinstance(x, (ast.Expr, ast.AugAssign))]:
+            if isinstance(sx, ast.Expr):
+                u = sx.value
+                if not (isinstance(u, ast.Call) and isinstance(u.func, ast.Attribute) and u.func.attr == 'update'
+                        and len(u.args) == 1 and not u.keywords):
+                    continue
+                dst, src = u.func.value, u.args[0]
+            else:
+                if not isinstance(sx.op, ast.BitOr):
+                    continue
+                dst, src = sx.target, sx.value
+            srcs_ = {norm(y) for y in fl.alts(src, sx)}
+            if not srcs_ or not srcs_ <= (kept_txt | merged):
+                continue
+            if isinstance(dst, ast.Name):
+                dsts = {f'{dst.id}@{d[1].lineno}' for d in fl.reaching(dst.id, sx) if d[0] == 'val' and _is_fresh_container(d[2])} \
+                    or {norm(y) for y in fl.alts(dst, sx)}
+            else:
+                dsts = {norm(y) for y in fl.alts(dst, sx)}
+            if dsts <= merged:
+                continue
+            # where the container merged is made anew in each pass of the field-set loop, the merge has to happen in
+            # each pass, after the fields were read, and whatever the item
+            keep_u, leave_u, cx_u = visit_conditions(sx, sx, sloop, ab)
+            keep_f, leave_f, cx_f = visit_conditions(fstmt, fstmt, sloop, ab)
+            after = sx.lineno > getattr(fstmt, 'end_lineno', fstmt.lineno) and not is_within(sx, fstmt)
+            inside = sloop.contains(sx) or not sloop.contains(fstmt)
+            if not after or not inside or cx_u or len(leave_u) != len(leave_f) or \
+                    any(not any(e is e0 for e0, _ in keep_f) for e, _ in keep_u):
+                ctx.undecided('C03-R6', fi, norm(sx)[:60], 'cannot tell whether the values read are merged into the mapping the '
+                              'trajectory is filled from for every field set')
+            merged |= dsts
+            grew = True
+        if not grew:
+            break
+
     def is_kept_container(e):
-        return any(norm(e) in bases or (comp is not None and same_site(e, comp)) for bases, comp, ks, node, stx in kept)
+        return norm(e) in merged or \
+            any(norm(e) in bases or (comp is not None and same_site(e, comp)) for bases, comp, ks, node, stx in kept)
     sets = [x for x in calls_in(fi.node) if call_name(x) == 'setattr' and len(x.args) == 3 and x not in direct]
     used = []
     for x in sets:
